@@ -138,7 +138,7 @@ pub fn schema(profile: Profile) -> Schema {
           "name": "items",
           "nullable": true,
           "fields": [
-            {"type": "keyword", "name": "k", "stored": true, "indexed": true, "fast": true},
+            {"type": "keyword", "name": "k", "stored": true, "indexed": true, "fast": true, "nullable": true},
             {"type": "numeric", "name": "q", "i64": true, "fast": true, "stored": true, "nullable": true},
             {"type": "object", "name": "subs", "nullable": true, "fields": [
               {"type": "keyword", "name": "s", "stored": true, "indexed": true, "fast": true}
@@ -214,7 +214,10 @@ pub fn make_doc(profile: Profile, id: &str, ver: u64) -> Document {
       let with_lang = profile == Profile::UnsafeNested;
       let item = |r: u64, ver: u64| -> Value {
         let k = ["a", "b", "c"][(r % 3) as usize];
-        let mut o = match (r / 3) % 5 {
+        let mut o = match (r / 3) % 7 {
+          // objects without a (non-null) leaf of their own, only children
+          5 => json!({"subs": [{"s": "y"}, {"s": k}]}),
+          6 => json!({"k": null, "q": null, "subs": {"s": "x"}}),
           0 => json!({"k": k}),
           1 => json!({"k": k, "q": (ver % 7) as i64}),
           2 => json!({"k": [k, "z"], "q": null, "subs": [{"s": "x"}, {"s": "y"}]}),
